@@ -10,6 +10,7 @@ macro_rules! build_cfg {
     ($krate:ident, $cfg:expr) => {{
         use $krate::{FilterConfig, FilterMode, IpFilter, PortFilter, SubnetFilter};
         let cfg: &Value = $cfg;
+        let via = cfg["via"].as_u64().unwrap_or(0);
         let mut fc = FilterConfig::new();
         fc = fc.mode(if cfg["deny"].as_bool().unwrap() { FilterMode::Deny } else { FilterMode::Allow });
         if let Some(p) = arr(&cfg["port"]).first() {
@@ -31,7 +32,8 @@ macro_rules! build_cfg {
             fc = fc.with_port_filter(pf);
         }
         if let Some(f) = arr(&cfg["ip"]).first() {
-            let mut ipf = IpFilter::new();
+            // `via`: the same side selection reached by another builder sequence (1: the other side chosen first; 2: from Default)
+            let mut ipf = if via == 2 { IpFilter::default() } else { IpFilter::new() };
             let addrs: Vec<String> = arr(&f["addrs"]).iter().map(|a| addr(a).to_string()).collect();
             if addrs.len() == 1 {
                 ipf = ipf.allow(&addrs[0]).unwrap();
@@ -40,15 +42,16 @@ macro_rules! build_cfg {
             }
             let (cs, cd) = (f["cs"].as_bool().unwrap(), f["cd"].as_bool().unwrap());
             match (cs, cd) {
-                (true, true) => {}
-                (true, false) => ipf = ipf.source_only(),
-                (false, true) => ipf = ipf.destination_only(),
+                (true, true) => { if via == 2 { ipf.check_source = true; ipf.check_destination = true; } }
+                (true, false) => { if via == 1 { ipf = ipf.destination_only(); } ipf = ipf.source_only() }
+                (false, true) => { if via == 1 { ipf = ipf.source_only(); } ipf = ipf.destination_only() }
                 (false, false) => { ipf.check_source = false; ipf.check_destination = false; }
             }
             fc = fc.with_ip_filter(ipf);
         }
         if let Some(f) = arr(&cfg["sub"]).first() {
-            let mut sf = SubnetFilter::new();
+            // `via`: the same side selection reached by another builder sequence (1: the other side chosen first; 2: from Default)
+            let mut sf = if via == 2 { SubnetFilter::default() } else { SubnetFilter::new() };
             let nets: Vec<String> = arr(&f["nets"]).iter().map(|n| format!("{}/{}", addr(&n["a"]), u(&n["p"]))).collect();
             if nets.len() == 1 {
                 sf = sf.allow(&nets[0]).unwrap();
@@ -57,9 +60,9 @@ macro_rules! build_cfg {
             }
             let (cs, cd) = (f["cs"].as_bool().unwrap(), f["cd"].as_bool().unwrap());
             match (cs, cd) {
-                (true, true) => {}
-                (true, false) => sf = sf.source_only(),
-                (false, true) => sf = sf.destination_only(),
+                (true, true) => { if via == 2 { sf.check_source = true; sf.check_destination = true; } }
+                (true, false) => { if via == 1 { sf = sf.destination_only(); } sf = sf.source_only() }
+                (false, true) => { if via == 1 { sf = sf.source_only(); } sf = sf.destination_only() }
                 (false, false) => { sf.check_source = false; sf.check_destination = false; }
             }
             fc = fc.with_subnet_filter(sf);
